@@ -139,6 +139,15 @@ func (l *Log) Fail(class, key, format string, args ...interface{}) {
 	l.failFmt = append(l.failFmt, event{seq, format, args})
 }
 
+// FailSilently records a violation without adding an event to the log, for facts that
+// must not enter the run's fingerprint (differential workloads compare fingerprints
+// across builds; what one build does under concurrency is reported separately).
+func (l *Log) FailSilently(class, key, format string, args ...interface{}) {
+	l.fails = append(l.fails, Violation{l.run.Property, class, key, ""})
+	l.failEv = append(l.failEv, 0)
+	l.failFmt = append(l.failFmt, event{0, format, args})
+}
+
 func (l *Log) Fails() []Violation { return l.fails }
 
 func (r *Run) Ev(format string, args ...interface{}) uint64 { return r.Main.Ev(format, args...) }
